@@ -1,0 +1,5 @@
+// Package verifx re-exports, for builds with -tags verif only, the pieces of
+// rqlite's internal packages that an out-of-module simulation harness needs
+// (Go forbids importing .../internal/... from another module). It contains no
+// logic of its own and is empty in normal builds.
+package verifx
